@@ -122,6 +122,17 @@ def main():
             needs = re.sub(r"\s+", " ", (m.get("needs_to_manifest") or ""))[:220].replace("|", "/")
         lines.append("| %s | %s | %s | %s. %s |" % (m.get("name"), m.get("property"), needs, out, hist))
     lines.append("")
+    metas = [json.load(open(f)) for f in sorted(glob.glob(os.path.join(VERIF, "seeded", "*", "meta.json")))]
+    tot2 = len(metas)
+    def first_caught(m):
+        return (m.get("check_runs") or [{}])[0].get("caught") and not m.get("extended_before_first_run")
+    asis = sum(1 for m in metas if first_caught(m))
+    later = sum(1 for m in metas if not first_caught(m) and any(r.get("caught") for r in (m.get("check_runs") or [])))
+    never = tot2 - asis - later
+    lines.append("Summary: %d independently seeded changes; %d caught by the check as it stood when the change arrived, %d missed at "
+                 "first and caught after the check was strengthened (possibly by another property's check - see the row), %d not caught "
+                 "(each row says why)." % (tot2, asis, later, never))
+    lines.append("")
     lines.append(END)
     block = "\n".join(lines)
     p = os.path.join(VERIF, "DESIGN.md")
